@@ -408,6 +408,13 @@ func c18Property(rt *rapid.T) {
 	if rapid.Bool().Draw(rt, "group") {
 		gv := gen.Version(rt)
 		dt := gen.ValueType(rt, gv, 0, "group/type")
+		if rapid.Bool().Draw(rt, "group/textual") {
+			// the types whose codecs convert to and from text (the conversions with the most machinery behind them)
+			dt = rapid.SampledFrom([]datatype.DataType{datatype.Timestamp, datatype.Timestamp, datatype.Date, datatype.Time, datatype.Uuid, datatype.Inet, datatype.Varint, datatype.Decimal, datatype.Bigint}).Draw(rt, "group/textualType")
+			if !gen.AtLeast(gv, 4) && (dt == datatype.Date || dt == datatype.Time) {
+				dt = datatype.Timestamp
+			}
+		}
 		rep := gen.DrawRep(rt, dt, false, "group/rep")
 		rep.Iface = false
 		if rapid.Bool().Draw(rt, "group/string") {
@@ -425,31 +432,57 @@ func c18Property(rt *rapid.T) {
 		if err != nil {
 			rt.Fatalf("NewCodec: %v", err)
 		}
-		for g := range items {
-			for k := 0; k < 2; k++ {
-				av := vals[(g+k)%nvals]
-				it := &c18Item{name: "group/" + dt.AsCql() + "/" + rep.Kind, run: func() (string, error) {
-					enc, err := codec.Encode(gen.ToGo(av, dt, rep).Interface(), gv)
-					if err != nil {
-						return "", err
+		// every value once on its own: its encoding and what it decodes to
+		encs := make([][]byte, nvals)
+		wants := make([]string, nvals)
+		usable := true
+		for k, av := range vals {
+			enc, err := codec.Encode(gen.ToGo(av, dt, rep).Interface(), gv)
+			if err != nil {
+				usable = false
+				break
+			}
+			dest := reflect.New(topDestType(rep))
+			if _, err := codec.Decode(enc, dest.Interface(), gv); err != nil {
+				usable = false
+				break
+			}
+			got, err := gen.FromGo(dest.Elem(), dt)
+			if err != nil {
+				usable = false
+				break
+			}
+			encs[k], wants[k] = enc, gen.RenderAV(dt, got)
+		}
+		iters := rapid.SampledFrom([]int{200, 1000, 4000}).Draw(rt, "group/iterations")
+		if usable {
+			for g := range items {
+				g := g
+				it := &c18Item{name: "group/" + dt.AsCql() + "/" + rep.Kind, want: "all as alone", run: func() (string, error) {
+					// the goroutines walk the same few values in step, so that the same value is often in flight twice
+					for i := 0; i < iters; i++ {
+						k := (i/3 + g%2) % nvals
+						enc, err := codec.Encode(gen.ToGo(vals[k], dt, rep).Interface(), gv)
+						if err != nil {
+							return "", err
+						}
+						if !bytes.Equal(enc, encs[k]) {
+							return fmt.Sprintf("iteration %d: value %d encodes to %x, alone to %x", i, k, enc, encs[k]), nil
+						}
+						dest := reflect.New(topDestType(rep))
+						if _, err := codec.Decode(encs[k], dest.Interface(), gv); err != nil {
+							return "", err
+						}
+						got, err := gen.FromGo(dest.Elem(), dt)
+						if err != nil {
+							return "", err
+						}
+						if r := gen.RenderAV(dt, got); r != wants[k] {
+							return fmt.Sprintf("iteration %d: value %d decodes to %s, alone to %s", i, k, r, wants[k]), nil
+						}
 					}
-					dest := reflect.New(topDestType(rep))
-					if _, err := codec.Decode(enc, dest.Interface(), gv); err != nil {
-						return "", err
-					}
-					got, err := gen.FromGo(dest.Elem(), dt)
-					if err != nil {
-						return "", err
-					}
-					return gen.RenderAV(dt, got), nil
+					return "all as alone", nil
 				}}
-				if !cold {
-					want, err := it.run()
-					if err != nil {
-						continue
-					}
-					it.want = want
-				}
 				items[g] = append(items[g], it)
 				n++
 			}
